@@ -64,7 +64,7 @@ func zzProviders(s *kube.Store) (names []string, sources []string) {
 // one object is created; running the installer again changes nothing.
 //
 //gosym:harness
-//gosym:cover same-repo-installed different-repo custom-name configuration-or-function
+//gosym:cover same-repo-installed different-repo custom-name configuration-or-function unparsable-source
 func HarnessC20Installer() {
 	s := kube.New()
 	s.Register(&v1.Provider{}, &v1.ProviderList{}, zzPkgGroup, "Provider")
@@ -94,6 +94,27 @@ func HarnessC20Installer() {
 		maxExisting = 2
 	}
 	nExisting := zz.Choose("existing", maxExisting)
+	// a package installed from a source that is no valid image reference (a
+	// preloaded package file, pull policy Never) may be listed before the others
+	extra := 0
+	if nExisting > 0 && zz.Bool("preloaded.package.listed.first") {
+		zz.Cover("unparsable-source")
+		extra = 1
+		switch pkgKind {
+		case 0:
+			p := &v1.Provider{ObjectMeta: metav1.ObjectMeta{Name: "a-preloaded"}}
+			p.Spec.Package = "Preloaded_Base.xpkg"
+			s.Put(p)
+		case 1:
+			p := &v1.Configuration{ObjectMeta: metav1.ObjectMeta{Name: "a-preloaded"}}
+			p.Spec.Package = "Preloaded_Base.xpkg"
+			s.Put(p)
+		case 2:
+			p := &v1.Function{ObjectMeta: metav1.ObjectMeta{Name: "a-preloaded"}}
+			p.Spec.Package = "Preloaded_Base.xpkg"
+			s.Put(p)
+		}
+	}
 	type inst struct {
 		name string
 		ref  zzRef
@@ -147,7 +168,7 @@ func HarnessC20Installer() {
 	}
 	if same >= 0 {
 		zz.Cover("same-repo-installed")
-		zz.Assert("already-installed-repository-not-installed-twice", len(names) == len(pre))
+		zz.Assert("already-installed-repository-not-installed-twice", len(names) == len(pre)+extra)
 		for i, n := range names {
 			if n == pre[same].name {
 				zz.Assert("already-installed-package-updated-in-place", sources[i] == req.String())
@@ -155,9 +176,16 @@ func HarnessC20Installer() {
 		}
 	} else {
 		zz.Cover("different-repo")
-		zz.Assert("new-repository-installed-once", len(names) == len(pre)+1)
+		zz.Assert("new-repository-installed-once", len(names) == len(pre)+extra+1)
 	}
 	// other packages are left alone
+	if extra == 1 {
+		for i, n := range names {
+			if n == "a-preloaded" {
+				zz.Assert("other-packages-untouched", sources[i] == "Preloaded_Base.xpkg")
+			}
+		}
+	}
 	for _, e := range pre {
 		if same >= 0 && e.name == pre[same].name {
 			continue
